@@ -92,8 +92,8 @@ theorem current_is_documented : Dev.current = Dev.none := rfl
 
 /-- REGRESSION TRIPWIRE (syntactic, like `dev_current_source`): the only statements of package asm that assign
 into an argument list (`args[i] = …`, `x.Args[i] = …`, `x.Args = …`) are in the functions that BUILD a plan
-(`NewPlan`, `Fn.compile`) and in `evalValue` (cond's evaluator, which compiles a call it finds inside a pair: the
-known finding C20-cond-compiles-plan-list). No Eval function writes into its `args` — which alias `Fn.Args`, the
+(`NewPlan`, `Fn.compile`) and in `evalValue` (cond's evaluator, which compiles a call it finds inside a pair — a COPY
+of the pair's list since 4f445c7; before, in place: finding C20-cond-compiles-plan-list, fixed). No Eval function writes into its `args` — which alias `Fn.Args`, the
 plan itself. The model cannot express such a write (a plan is an immutable `Arg` tree; only its literals are
 heap cells, covered by `plan_cells_untouched`); that executing a plan leaves Simplify()/String() as they were and
 that a reused plan behaves like a fresh one on ANOTHER root is oracle (b') of the run. -/
@@ -130,6 +130,17 @@ theorem text_fns_source_shape :
     shapeOf b!"append" = some (true, [2], [0, 1]) ∧
     shapeOf b!"include" = some (true, [2], [1, 0]) ∧
     shapeOf b!"sort" = some (true, [2], [0]) := by decide
+
+/-- REGRESSION TRIPWIRE over the lines the round-3 fix commits patched (syntactic shapes, like `dev_current_source`):
+`appendEval` returns the array it built (`out`), not Go's `append(list, v)` (de3017e, C20-append-shares-backing: the
+model's `fnAppend` allocates a new cell); `evalValue` and `Fn.compile` give a compiled nested call a fresh copy of
+the rest of its list (`af.Args = make(…)`, 4f445c7, C20-cond-compiles-plan-list: in the model a plan is never
+written). Undoing a fix breaks the build; that the code BEHAVES so is the run (copy box, append2, plan-edited oracle). -/
+theorem round3_fixes_in_source :
+    Gen.AsmShapes.appendReturn = "out" ∧
+    Gen.AsmFacts.argWrites.contains ("evalValue", "af.Args = make([]any, len(tv)-1)") = true ∧
+    Gen.AsmFacts.argWrites.contains ("Fn.compile", "af.Args = make([]any, len(list)-1)") = true ∧
+    (Gen.AsmFacts.argWrites.any (fun w => w.2 == "af.Args = tv[1:]" || w.2 == "af.Args = list[1:]")) = false := by decide
 
 /-! ## 2. totality
 
